@@ -9,6 +9,8 @@
 #include <boost/multi/adaptors/blas/numeric.hpp>     // for is_complex
 #include <boost/multi/adaptors/blas/operations.hpp>  // for blas::C
 
+#include <memory>  // for std::pointer_traits
+
 namespace boost::multi::blas {
 
 using core::dot;
@@ -17,7 +19,9 @@ using core::dotc;
 
 template<class Context, class XIt, class Size, class YIt, class RPtr>
 auto dot_n(Context&& ctxt, XIt x_first, Size count, YIt y_first, RPtr rp) {
-	if constexpr(! is_complex<typename XIt::value_type>{}) {
+	if(count == 0) {  // the sum over no elements is zero (some BLAS entry points return without touching the result when n == 0)
+		*rp = typename std::pointer_traits<RPtr>::element_type{};
+	} else if constexpr(! is_complex<typename XIt::value_type>{}) {
                                                                            std::forward<Context>(ctxt)->dot (count,            x_first.base() , stride(x_first), y_first.base(), stride(y_first), rp);
 	} else {
 		if      constexpr(!is_conjugated<XIt>{} && !is_conjugated<YIt>{}) {std::forward<Context>(ctxt)->dotu(count,            x_first.base() , stride(x_first), y_first.base(), stride(y_first), rp);}
